@@ -8,7 +8,31 @@ import sys
 HERE = os.path.dirname(os.path.dirname(os.path.abspath(__file__)))
 
 # property id -> (spec modules, technique, level text, level note, DESIGN section)
+LANG_NOTE = ("Trusted: TLC; the printer from abstract syntax to Lisp text and the projection of results (ints, nil, booleans, "
+             "keywords, vectors; functions are opaque and are observed by calling them inside the program); the typed "
+             "program generator only decides WHICH programs are tried. Known architectural deviations are classified by the "
+             "as-built model (Gen.tla + PyIR.tla) inside TLC: a record counts as a known finding only when the as-built model "
+             "with exactly the named deviations reproduces the observed value, exception class and effect log.")
 CHECKS = {
+    "C01": ("Lang, Lang_Trace, Gen, PyIR, LangValues",
+            "TLA+ small-step semantics Lang.tla (CEK machine) checked and run by TLC on every recorded execution of the real "
+            "compiler (trace validation of value / exception class); as-built compilation model Gen.tla+PyIR.tla classifies "
+            "deviations",
+            "Programs of the special-form fragment (all skeletons up to a size bound over a reduced alphabet plus seeded random "
+            "typed programs with closures, loop/recur, letfn, try/catch/finally, throw, def) are wrapped in 6-10 syntactic "
+            "contexts, printed to Lisp, read, compiled and run by the real basilisp under 2-8 code-generation option sets; TLC "
+            "runs the specification's abstract machine on the same abstract syntax, evaluates its invariants (effect log and "
+            "store are append-only: closures keep their bindings) on every machine state, and accepts the record iff value or "
+            "exception class agree.",
+            LANG_NOTE, "5/C01"),
+    "C02": ("Lang, Lang_Trace, Gen, PyIR, LangValues",
+            "same machinery as C01; the clause decided is the order and multiplicity of effects: the marker sequence recorded "
+            "from the real execution must equal the log of the Lang.tla machine",
+            "Every sub-expression of the generated programs may carry an effect marker (a real function interned in the scratch "
+            "namespace); the recorded marker sequence of each real execution must equal the effect log that the TLA+ machine "
+            "produces for the same program: function position then arguments left to right, collection elements left to right, "
+            "let/loop initialisers in order, finally after body and handler, nothing on untaken branches, each marker once.",
+            LANG_NOTE, "5/C02"),
     "C17": ("Order",
             "TLA+ spec Order.tla (order laws on all triples + stable-sort machine) checked by TLC; "
             "TLC-generated tables and sort behaviours replayed into real compare/=/sort/sort-by",
